@@ -31,8 +31,11 @@ SPACE = {'quick': 'offsets {0,3}, nesting {0,1}: ~6 000 modules; 60 exit-status 
 JOB_TIMEOUT = 2300
 
 PROB = {
-    'epytext': {'xref': 'L{nopeX}', 'markup': 'B{unclosedX', 'field': '@fooX: bar', 'param': '@param zzX: nothing'},
-    'restructuredtext': {'xref': '`nopeX`', 'markup': ':bogusX:`role`', 'field': ':fooX: bar', 'param': ':param zzX: nothing'},
+    'epytext': {'xref': 'L{nopeX}', 'markup': 'B{unclosedX', 'field': '@fooX: bar', 'param': '@param zzX: nothing', 'retonly': '@return: the L{zzX} thing'},
+    'restructuredtext': {'xref': '`nopeX`', 'markup': ':bogusX:`role`', 'field': ':fooX: bar', 'param': ':param zzX: nothing',
+                         # consolidated fields: a bullet list / a definition list of parameters, one of which does not exist
+                         'consparam': ':Parameters:\n    - `a`: the a\n    - `zzX`: nothing', 'consdefparam': ':Parameters:\n    a : int\n        the a\n    zzX : int\n        nothing',
+                         'retonly': ':return: the `zzX` thing'},
     'google': {'xref': '`nopeX`', 'param': 'Args:\n    zzX: nothing'},
     'numpy': {'xref': '`nopeX`', 'param': 'Parameters\n----------\nzzX: int\n    nothing', 'typexref': 'Parameters\n----------\na: zzX\n    the a', 'rtypexref': 'Returns\n-------\nzzX\n    the result'},
     # --process-types: the names in type fields are cross-references of their own (google and numpy always work that way)
@@ -41,7 +44,7 @@ PROB = {
 }
 PROB['google'].update({'typexref': 'Args:\n    a (zzX): the a', 'rtypexref': 'Returns:\n    zzX: the result'})
 POSITIONS = ['p1l1', 'p1l2', 'p2', 'li', 'fb', 'sections', 'after-linesep', 'directive-body', 'directive-arg', 'directive-body-line2']
-OWNERS = ['module', 'class', 'function', 'method', 'attribute', 'inherited', 'reexported', 'classfield', 'classfield+inline', 'typefield+inline', 'ivar-two-sites', 'attr-redefined', 'classtypefield', 'modvarfield', 'modtypefield', 'class-redefined', 'function-redefined', 'class-redefined-both-bad', 'inherited-rendered-first', 'doc-assigned-class']
+OWNERS = ['module', 'class', 'function', 'method', 'attribute', 'inherited', 'reexported', 'classfield', 'classfield+inline', 'typefield+inline', 'ivar-two-sites', 'attr-redefined', 'classtypefield', 'modvarfield', 'modtypefield', 'class-redefined', 'function-redefined', 'class-redefined-both-bad', 'inherited-rendered-first', 'doc-assigned-class', 'property']
 # (text on the opening line, leading lines below the quotes)
 LAYOUTS: List[Tuple[bool, List[str]]] = [(True, []), (False, []), (False, ['']), (False, ['', '']), (False, ['WS']), (False, ['TRAIL'])]
 
@@ -53,7 +56,12 @@ def body_for(fmt: str, kind: str, pos: str) -> Optional[Tuple[List[str], int, in
         return None
     p = p.replace('X', '1')
     fmt = fmt.split('+')[0]
-    if kind in ('field', 'param', 'typexref', 'rtypexref'):
+    if kind == 'retonly':
+        # the docstring consists of the field alone (what a property's docstring often is)
+        if pos != 'p1l1':
+            return None
+        return [p], 0, 0
+    if kind in ('field', 'param', 'typexref', 'rtypexref', 'consparam', 'consdefparam'):
         if pos != 'p1l1':
             return None
         pl = p.split('\n')
@@ -109,9 +117,13 @@ def module_source(owner: str, fmt: str, kind: str, pos: str, layout: Tuple[bool,
     if owner in ('class-redefined', 'function-redefined', 'class-redefined-both-bad') and (nest or raw or layout[1] not in ([], ['']) or kind == 'param' or pos == 'fb'):
         return None
     fmt = fmt.split('+')[0]
-    if kind == 'param' and owner in ('module', 'class') + ATTRS:
+    if kind in ('param', 'consparam', 'consdefparam') and owner in ('module', 'class', 'property') + ATTRS:
         return None
-    if kind in ('typexref', 'rtypexref') and owner not in ('function', 'method', 'inherited', 'reexported', 'function-redefined', 'inherited-rendered-first'):
+    if kind == 'retonly' and owner not in ('function', 'method', 'property'):
+        return None
+    if owner == 'property' and (kind in ('typexref', 'rtypexref') or pos == 'fb'):
+        return None
+    if kind in ('typexref', 'rtypexref', 'consparam', 'consdefparam') and owner not in ('function', 'method', 'inherited', 'reexported', 'function-redefined', 'inherited-rendered-first'):
         return None
     if pos == 'fb' and owner in ('module', 'class') + ATTRS:
         return None
@@ -187,6 +199,11 @@ def module_source(owner: str, fmt: str, kind: str, pos: str, layout: Tuple[bool,
         lines += pre + ([ind + ('@staticmethod' if nest else '@deco')] if deco else []) + [ind + ('def f(a):' if (not nest or deco) else 'def f(self, a):')]
         base = len(lines)
         lines += d + [ind + '    pass']
+    elif owner == 'property':
+        d, off = doc(ind + '        ')
+        lines += pre + [ind + 'class K:', ind + '    "class docstring, fine"', ind + '    x = 1', ind + '    @property', ind + '    def p(self):']
+        base = len(lines)
+        lines += d + [ind + '        return 1']
     elif owner in ('method', 'inherited', 'inherited-rendered-first'):
         d, off = doc(ind + '        ')
         lines += pre + [ind + 'class K:', ind + '    def m(self, a):']
